@@ -19,6 +19,9 @@ func init() {
 			"(R2, faithful inclusion) a formatter includes an optional component (user, port) under that component's own emptiness test only — no further value-dependent condition that the parser does not mirror (e.g. hiding a default port); " +
 			"(R3, dispatch) Parse, Format and EnsureValid cover the same protocol set (Local, SSH, Docker) and Format/EnsureValid reject anything else; " +
 			"(R4, parser ⊑ validator) for the components a parser produces, each rejection EnsureValid applies to that protocol has a counterpart on every accepting path of the parser: non-empty host/container, no leading '-' in host and user, 16-bit port (ParseUint bit size), Docker/Local never set a port, SSH/Local never set an environment; and the validator's absolute-path requirement for Unix-socket forwarding endpoints is limited to local URLs (remote parsers accept relative sockets). " +
+			"(R5, unambiguity) a component the formatter leaves out when empty is never produced «explicitly empty» by the parser: a user cut out in front of '@' is non-empty, and an explicit zero SSH port cannot silently disappear (the parser refuses it or the formatter prints it when the path could be read as a port); " +
+			"(R6, delimited host) every value parseSCPSSH can return as Host is the text in front of the first ':' — formatSSH prints host + ':' verbatim, so a host that could contain ':' (e.g. the inside of a bracketed literal) would not read back; " +
+			"(R7, Docker path) parseDocker shortens the path by its first byte only in the cases formatDocker undoes ('/~…', '/<windows path>', the ':' of a forwarding endpoint) — any other normalisation of the path is not restored by the formatter and the text is then re-read by those same tests; " +
 			"Not decided: the round-trip equation itself; forwarding.Parse's grammar.",
 		Assumptions: []string{"fmt.Sprintf renders strings and integers losslessly"},
 		Run:         runC38,
@@ -203,6 +206,8 @@ func runC38(c *eng.Ctx) {
 	}
 	c.Floor("R4", 9)
 	c38Unambiguous(c, parsedFields)
+	c38Delimited(c, parsedFields)
+	c38DockerPathStrip(c, parsedFields)
 }
 
 // c38ParserRejects: on every accepting path of a parser the host is non-empty
